@@ -23,6 +23,8 @@
    the two RockRidgeEntries objects at the end (side_entries / pick).  On a -1 return `new` throws both objects away, so partial
    states never escape.  rr_record.append_field(..) mutates the shared RR object after it was placed and has
    no influence on placement: the final flag byte (rr_flags_of) is computed when the entry is created.
+   The symlink code is the one AFTER the repair "Rock Ridge symlink components are accounted and recorded by
+   their real length" (literal name slices, recorded_length(), complen = length + 2).
    curr_sl.add_component raising 'Symlink would be longer than 255' is checked on the finished records
    (current_length only grows, so some call raises iff a finished record is longer than 255); it never
    fires (RRPlaceSLProofs.sl_guard).  ce_record.add_record on a missing CE entry (first pass) is
@@ -123,12 +125,13 @@ Definition nm_stage (has_ce : bool) (name : list Z) (s : pstate)
   Some ((drp, cep), (cur + nm_lens drp, cel + nm_lens cep)).
 
 (* ---- _new_symlink ---------------------------------------------------------------------------- *)
-(* the in-memory Component add_component / set_last_component_continued leave for a token *)
+(* the in-memory Component add_component(compslice, not special) / set_last_component_continued leave for a
+   token: '/', '.', '..' as whole pieces go through factory(comp), a (slice of a) name is added literally *)
 Definition comp_of_tok (t : LongNames.tok) : option comp :=
   match t with
   | LongNames.TBrk => None
   | LongNames.TSpecial c => Some (sl_factory (LongNames.comp_text c))
-  | LongNames.TName b s => Some (if b then comp_set_continued (sl_factory s) else sl_factory s)
+  | LongNames.TName b s => Some (if b then comp_set_continued (sl_factory_lit s) else sl_factory_lit s)
   end.
 Definition sl_emit (c : comp) (k : list sl_rec) : list sl_rec :=
   match k with
@@ -146,12 +149,13 @@ Fixpoint sl_group (ts : list LongNames.tok) : list sl_rec :=
   end.
 Definition sl_lens (l : list sl_rec) : Z := sumz (map sl_current_length l).
 (* the same bookkeeping as the code does it, per add_component / per new record (sl_rec_header_len = 5,
-   Component.length(compslice)); equal to sl_lens of the grouped records (RRPlaceProofs.sl_track_lens) *)
+   complen = minimum = 2 for '/', '.', '..' and length + 2 for a slice); equal to sl_lens of the grouped records
+   (RRPlaceSLProofs.sl_track_lens) *)
 Definition tok_len (t : LongNames.tok) : Z :=
   match t with
   | LongNames.TBrk => 5
   | LongNames.TSpecial c => sl_comp_length (LongNames.comp_text c)
-  | LongNames.TName _ s => sl_comp_length s
+  | LongNames.TName _ s => 2 + zlen s
   end.
 Definition sl_track (ts : list LongNames.tok) : Z := 5 + sumz (map tok_len ts).
 
@@ -247,7 +251,7 @@ Definition sl_view (s : sl_rec) : bool * list LongNames.comp :=
 Definition read_target (r : placed) : list Z := LongNames.sl_reassemble (map sl_view (sl_of (visible r))).
 Definition read_name (r : placed) : list Z :=
   LongNames.nm_join (map (fun n => (nm_flags n, nm_name n)) (nm_list (visible r))).
-(* the first-pass condition in closed form (without symlink: the sum of the static lengths fits) *)
+(* the first-pass condition in closed form *)
 Definition opt_len (b : bool) (l : Z) : Z := if b then l else 0.
 Definition px_len (v : rrv) : Z := match len_px v with Some l => l | None => 0 end.
 Definition before_sl (i : place_in) : Z :=
@@ -256,21 +260,11 @@ Definition before_sl (i : place_in) : Z :=
 Definition after_sl (i : place_in) : Z :=
   len_tf TF_FLAGS + opt_len (p_child i) len_link + opt_len (p_reloc i) len_re
   + opt_len (p_parent i) len_link + opt_len (p_first i) (er_len (p_v i)).
-(* with a symlink: _new_symlink (without CE entry) must accept at curr_dr_len = before_sl -- it does iff
-   before_sl + RRSLRecord.length(split) <= 254, RRPlaceSLProofs.sl_stage_no_ce -- and what it really put into
-   the record (sl_in_dr) plus the rest must fit *)
-Definition sl_in_dr (i : place_in) : option Z :=
-  match sl_stage false (target_of i) (before_sl i, 0) with
-  | Some (_, (cur, _)) => Some (cur - before_sl i)
-  | None => None
-  end.
+(* everything fits: the static lengths of all entries, the SL entry uncut (RRSLRecord.length(split)) *)
+Definition sl_uncut (i : place_in) : Z :=
+  opt_len (nonempty (target_of i)) (len_sl (LongNames.split_slash (target_of i))).
 Definition first_fit (i : place_in) : bool :=
-  if nonempty (target_of i)
-  then match sl_in_dr i with
-       | Some l => before_sl i + l + after_sl i <=? ALLOWED_DR_SIZE
-       | None => false
-       end
-  else before_sl i + after_sl i <=? ALLOWED_DR_SIZE.
+  before_sl i + sl_uncut i + after_sl i <=? ALLOWED_DR_SIZE.
 
 (* ---- checker for the external harness -------------------------------------------------------- *)
 Definition place_tuple : Type :=
